@@ -189,7 +189,8 @@ class SolverProxy:
         elif status == REAL.Solver.OPTIMAL and SIM.adversary is not None:
             rng = random.Random(f"{SIM.adversary}:{idx}")
             adv = self._resolve(rng, pin=True)
-        if fault and fault["kind"] in ("abnormal", "not_solved", "infeasible", "feasible", "unbounded"):
+        if (fault and real_status == REAL.Solver.OPTIMAL
+                and fault["kind"] in ("abnormal", "not_solved", "infeasible", "feasible", "unbounded")):
             status = {
                 "abnormal": REAL.Solver.ABNORMAL,
                 "not_solved": REAL.Solver.NOT_SOLVED,
@@ -199,7 +200,9 @@ class SolverProxy:
             }[fault["kind"]]
             SIM.fire(fault["kind"])
         self._last_status = status
-        self._verify_fault = bool(fault and fault["kind"] == "verify")
+        self._real_status = real_status
+        self._verify_fault = bool(fault and fault["kind"] == "verify"
+                                  and real_status == REAL.Solver.OPTIMAL)
         rec = {
             "i": idx,
             "model": self._name,
@@ -225,6 +228,9 @@ class SolverProxy:
     def VerifySolution(self, *a, **k):
         if getattr(self, "_verify_fault", False):
             SIM.fire("verify")
+            return False
+        if getattr(self, "_real_status", None) not in (REAL.Solver.OPTIMAL, REAL.Solver.FEASIBLE):
+            # nothing to verify (the real library dereferences a missing solution here)
             return False
         return self._s.VerifySolution(*a, **k)
 
